@@ -230,6 +230,13 @@ def build_branch_acc(ar, fr=None):
 
 
 def rand_branch(rng, btype, stops=False):
+    if btype == "src":
+        return {"type": "src", "pre": [], "post": [],
+                "vals": [rng.randint(50, 59) for _ in range(rng.randint(0, 2))]}
+    return _rand_branch(rng, btype, stops)
+
+
+def _rand_branch(rng, btype, stops=False):
     # Count is a Run, a FillInto and a FillCompute element at once: inside a fill-compute or
     # fill-request branch it would change the branch type, so it is used in sequences only
     ac = btype == "seq"
@@ -283,12 +290,17 @@ def rand_split_flow(rng):
     n = rng.choice([0, 1, 2, 3, 3, 4, 5, 6])
     fl = []
     bare = rng.random() < 0.15
+    # contexts of class lena.context.Context (what the Context() element produces): a dict
+    # subclass that the framework's deep copies must copy as deeply as a plain dict
+    ctxcls = rng.random() < 0.2
     for i in range(n):
         d = [rng.randint(0, 9)] + ([rng.randint(0, 9)] if rng.random() < 0.4 else [])
         if bare or rng.random() < 0.1:
             fl.append({"d": d, "c": None})
         else:
             fl.append({"d": d, "c": rand_tree_ctx(rng, i)})
+            if ctxcls:
+                fl[-1]["cc"] = 1
     return fl
 
 
@@ -300,8 +312,16 @@ def mkflow(fr):
         if v["c"] is None:
             out.append(d)
         else:
-            out.append((d, copy.deepcopy(v["c"])))
+            out.append((d, _mkctx(v)))
     return out
+
+
+def _mkctx(v):
+    c = copy.deepcopy(v["c"])
+    if v.get("cc"):
+        import lena.context
+        c = lena.context.Context(c)
+    return c
 
 
 # ------------------------------------------------------------------ accumulators of part (b)
@@ -323,6 +343,15 @@ def build_acc(er):
             return lena.math.Mean(lena.math.Sum(), pass_on_empty=True)
         if er[1] == "dsum":
             return lena.math.Mean(lena.math.DSum(), pass_on_empty=True)
+        if er[1] == "split3":
+            # a sum sequence that yields several values: all are yielded by Mean.compute,
+            # each with its own context
+            return lena.math.Mean(lena.core.Split([lena.math.Sum(), lena.math.Sum(),
+                                                   lena.flow.Count(), lena.math.Sum()]),
+                                  pass_on_empty=True)
+        if er[1] == "storeflat":
+            return lena.math.Mean(lena.flow.StoreFilled(yield_as_a_group=False),
+                                  pass_on_empty=True)
         return lena.math.Mean(pass_on_empty=True)
     if k == "vmc":
         return lena.math.VarianceMeanCount(corrected=bool(er[1]), pass_on_empty=True)
@@ -382,7 +411,8 @@ def acc_domain(er):
 
 
 SCALAR_ACCS = [["count", "count"], ["count", "n"], ["sum"], ["dsum"], ["mean", None],
-               ["mean", "sum"], ["mean", "dsum"], ["vmc", 0], ["vmc", 1], ["hist", "1d"]]
+               ["mean", "sum"], ["mean", "dsum"], ["vmc", 0], ["vmc", 1], ["hist", "1d"],
+               ["mean", "split3"], ["mean", "storeflat"]]
 
 
 def rand_acc(rng):
@@ -411,6 +441,7 @@ def rand_acc(rng):
 def rand_acc_values(rng, er, n):
     dom = acc_domain(er)
     out = []
+    ctxcls = rng.random() < 0.2
     for i in range(n):
         if dom == "scalar":
             d = rng.choice([rng.randint(-1, 9), round(rng.uniform(-1, 9), 2)])
@@ -424,6 +455,8 @@ def rand_acc_values(rng, er, n):
                 c.pop("variable", None)
             c.pop("output", None)
         out.append({"d": d, "c": c})
+        if c is not None and ctxcls:
+            out[-1]["cc"] = 1
     return out
 
 
@@ -433,7 +466,7 @@ def mkaccval(vr):
         d = tuple(d[1:])
     if vr["c"] is None:
         return d
-    return (d, copy.deepcopy(vr["c"]))
+    return (d, _mkctx(vr))
 
 
 # ------------------------------------------------------------------ cases
@@ -449,7 +482,8 @@ def cases(tier, seed):
                                "zip-fill", "zip-request", "zip-request", "zip-requests"])
             nbr = rng.choice([1, 2, 2, 2, 3, 3, 4])
             if kind == "split-run":
-                types = [rng.choice(["seq", "seq", "fc", "fr"]) for _ in range(nbr)]
+                types = [rng.choice(["seq", "seq", "seq", "fc", "fc", "fr", "fr", "src"])
+                         for _ in range(nbr)]
             elif kind in ("split-fill", "zip-fill"):
                 types = ["fc"] * nbr
             else:
@@ -519,6 +553,11 @@ def corner_cases():
     flow = [{"d": [1], "c": {"i": 0, "n": {"k": 0}}}, {"d": [2], "c": {"i": 1}}]
     for bs in (1, 2, 1000, None):
         yield {"k": "split-run", "branches": two + [two[0]], "flow": flow, "bufsize": bs}
+    srcb = {"type": "src", "pre": [], "post": [], "vals": [50, 51]}
+    for perm in ([srcb, two[0], two[1]], [two[0], srcb, two[1]], [two[0], two[1], srcb],
+                 [srcb, two[0], srcb, two[1], two[0]]):
+        for bs in (1, 1000):
+            yield {"k": "split-run", "branches": perm, "flow": flow, "bufsize": bs}
     stopper = {"type": "fc", "pre": [["cset", "a"], ["cdeep"], ["slice", 1]], "post": [],
                "acc": ["store", 1]}
     reader = {"type": "fc", "pre": [], "post": [], "acc": ["store", 1]}
@@ -600,7 +639,13 @@ def make_split(kind, branches, idxs, bufsize):
     if kind == "zip-requests":
         kind = "zip-request"
     if kind.startswith("split"):
-        seqs = [tuple(branch_elements(branches[j], "b%d" % j)) for j in idxs]
+        seqs = []
+        for j in idxs:
+            if branches[j]["type"] == "src":
+                # a Source branch: never reads the buffer, yields its own flow once
+                seqs.append(lena.core.Source(list(branches[j]["vals"]), gen.Tag("b%d" % j)))
+            else:
+                seqs.append(tuple(branch_elements(branches[j], "b%d" % j)))
         return lena.core.Split(seqs, bufsize=bufsize)
     seqs = []
     for j in idxs:
